@@ -22,6 +22,16 @@ ASSUMPTIONS = ["operand frames of add/==/!= are themselves reachable frames (Inv
 PARTIAL = ("__str__ and the ForwardFrame/BackwardFrame subclasses are modelled and tied but carry no theorem; "
            "as_byte_sequence is list(pack) by definition in both model and code")
 
+def fbits(f):
+    """width of a frame through the public API (private attribute names are the library's business)"""
+    return len(f)
+
+
+def fdata(f):
+    """contents of a frame through the public API"""
+    return f.as_integer
+
+
 ODD = [True, False, None, 1.5, 1.0, 0.0, "a", "", [1], (), object]
 
 
@@ -68,7 +78,7 @@ def fmt_out(o):
         return "bit %d" % o
     if isinstance(o, int):
         return "num %d" % o
-    return "frame %d %d" % (o._bits, int(o._data))
+    return "frame %d %d" % (fbits(o), int(fdata(o)))
 
 
 def impl_op(F, bits, data, name, ops):
@@ -96,11 +106,11 @@ def impl_op(F, bits, data, name, ops):
         else:
             raise AssertionError(name)
     except Exception as e:
-        changed = "" if (f._bits == bits and f._data == data) else " frame-changed"
+        changed = "" if (fbits(f) == bits and fdata(f) == data) else " frame-changed"
         return "err " + type(e).__name__ + changed, f
-    if not (0 <= f._data < (1 << f._bits)) or f._bits != bits:
-        return "ok OUT-OF-RANGE %d %d" % (f._bits, f._data), f
-    return "ok %d %d %s" % (f._bits, int(f._data), fmt_out(r)), f
+    if not (0 <= fdata(f) < (1 << fbits(f))) or fbits(f) != bits:
+        return "ok OUT-OF-RANGE %d %d" % (fbits(f), fdata(f)), f
+    return "ok %d %d %s" % (fbits(f), int(fdata(f)), fmt_out(r)), f
 
 
 def line_of(name, bits, data, ops, F):
@@ -108,7 +118,7 @@ def line_of(name, bits, data, ops, F):
     if name in ("add", "eq", "ne"):
         o = ops[0]
         if isinstance(o, F):
-            parts += [str(o._bits), str(int(o._data))]
+            parts += [str(fbits(o)), str(int(fdata(o)))]
         else:
             parts += ["-", "-"]
     else:
@@ -188,7 +198,7 @@ def correspond(ctx, corr):
         for d in datav:
             for cls in (fr.Frame, fr.ForwardFrame):
                 st, r = outcome(lambda: cls(b, d))
-                ans = "ok %d %d" % (int(r._bits), int(r._data)) if st == "ok" else "err " + r
+                ans = "ok %d %d" % (int(fbits(r)), int(fdata(r))) if st == "ok" else "err " + r
                 run.add("new %s %s" % (tok(b), tok(d)), ans, False)
                 # the property's statement: accepted exactly when the number (an int, or the big-endian value
                 # of a byte sequence) fits the width, and then the frame holds exactly that number
@@ -252,7 +262,7 @@ def correspond(ctx, corr):
         for step in range(60):
             k = ctx.rng.randrange(4)
             f, w = frames[k], ws[k]
-            bits, data = f._bits, int(f._data)
+            bits, data = fbits(f), int(fdata(f))
             if ctx.rng.random() < 0.7:
                 a, b = ctx.rng.randrange(w), ctx.rng.randrange(w)
                 if ctx.rng.random() < 0.5:      # reuse coordinates across frames of different widths
@@ -262,7 +272,7 @@ def correspond(ctx, corr):
                 name, ops = "sets", [a, b, None, v]
                 try:
                     f[a:b] = v
-                    ans = "ok %d %d unit" % (f._bits, int(f._data))
+                    ans = "ok %d %d unit" % (fbits(f), int(fdata(f)))
                 except Exception as e:
                     ans = "err " + type(e).__name__
             else:
@@ -270,12 +280,12 @@ def correspond(ctx, corr):
                 v = ctx.rng.random() < 0.5
                 name, ops = "seti", [i, v]
                 f[i] = v
-                ans = "ok %d %d unit" % (f._bits, int(f._data))
+                ans = "ok %d %d unit" % (fbits(f), int(fdata(f)))
             line = line_of(name, bits, data, ops, F)
             run.add(line, ans, True)
             hist.append("frame%d: %s" % (k, line))
-            if not (f._bits == w and 0 <= f._data < (1 << w)):
-                corr.violate("frame:range", {"history": hist}, "0 <= value < 2^%d" % w, "value %d" % f._data)
+            if not (fbits(f) == w and 0 <= fdata(f) < (1 << w)):
+                corr.violate("frame:range", {"history": hist}, "0 <= value < 2^%d" % w, "value %d" % fdata(f))
                 break
         corr.nontrivial(("multi", h))
     run.flush(ctx)
@@ -288,7 +298,7 @@ def correspond(ctx, corr):
         f = F(w, ctx.rng.randrange(1 << w))
         hist = []
         for step in range(40):
-            bits, data = f._bits, int(f._data)
+            bits, data = fbits(f), int(fdata(f))
             k = ctx.rng.random()
             def ridx():
                 return ctx.rng.choice([ctx.rng.randrange(w), ctx.rng.randrange(w), -1, w, w + 3,
@@ -314,7 +324,7 @@ def correspond(ctx, corr):
                 other = ctx.rng.choice([F(ow, ctx.rng.randrange(1 << ow)), F(bits, data), None, 5])
                 name, ops = ctx.rng.choice(["add", "eq", "ne"]), [other]
             # apply to the live frame (not a fresh copy) so the history is real
-            before = (f._bits, f._data)
+            before = (fbits(f), fdata(f))
             try:
                 if name == "geti":
                     r = f[ops[0]]
@@ -332,32 +342,32 @@ def correspond(ctx, corr):
                     r = bool(f == ops[0])
                 else:
                     r = bool(f != ops[0])
-                ans = "ok %d %d %s" % (f._bits, int(f._data), fmt_out(r))
+                ans = "ok %d %d %s" % (fbits(f), int(fdata(f)), fmt_out(r))
             except Exception as e:
-                ans = "err " + type(e).__name__ + ("" if (f._bits, f._data) == before else " frame-changed")
+                ans = "err " + type(e).__name__ + ("" if (fbits(f), fdata(f)) == before else " frame-changed")
             line = line_of(name, bits, data, ops, F)
             run.add(line, ans, True)
             hist.append(line)
             # a frame produced by `+` is a frame like any other: carry on the history ON THE SUM half of the time
             # (every later line states the live frame's width and contents, so the model follows by itself)
-            if name == "add" and ans.startswith("ok") and r._bits <= 300 and ctx.rng.random() < 0.5:
+            if name == "add" and ans.startswith("ok") and fbits(r) <= 300 and ctx.rng.random() < 0.5:
                 f = r
-                w = f._bits
+                w = fbits(f)
                 hist.append("(history continues on the sum)")
                 corr.bump("hist:continued-on-sum")
             # the views must follow every mutation (read them at random points so that any caching is exercised)
-            if ctx.rng.random() < 0.6 and f._bits == w and 0 <= f._data < (1 << w):
+            if ctx.rng.random() < 0.6 and fbits(f) == w and 0 <= fdata(f) < (1 << w):
                 pk = f.pack
-                if not (int.from_bytes(pk, "big") == f._data == f.as_integer and len(pk) == (w + 7) // 8
+                if not (int.from_bytes(pk, "big") == fdata(f) == f.as_integer and len(pk) == (w + 7) // 8
                         and f.as_byte_sequence == list(pk) and F(w, pk) == f
                         and str(f) == "Frame(%d,%s)" % (w, list(pk))
                         and f.pack_len((w + 7) // 8 + 1) == b"\x00" + pk):
-                    corr.violate("frame:views-after-history", {"history": hist}, "views encode value %d" % f._data,
+                    corr.violate("frame:views-after-history", {"history": hist}, "views encode value %d" % fdata(f),
                                  "pack=%s as_integer=%s str=%s" % (list(pk), f.as_integer, str(f)))
                     break
-            if not (f._bits == w and 0 <= f._data < (1 << w)):
+            if not (fbits(f) == w and 0 <= fdata(f) < (1 << w)):
                 corr.violate("frame:range", {"history": hist}, "0 <= value < 2^%d, width %d" % (w, w),
-                             "width %d value %d" % (f._bits, f._data))
+                             "width %d value %d" % (fbits(f), fdata(f)))
                 break
             corr.bump("hist:" + name + ":" + ans.split()[0])
         corr.nontrivial(("history", h))
